@@ -30,6 +30,17 @@ theorem read_spec (log : List Version) (h : Ordered log) (T : Option Int) :
 example : Ordered [⟨10, [(1, some 5), (2, none)]⟩, ⟨10, [(1, some 6)]⟩, ⟨12, [(2, some 7), (3, none)]⟩] :=
   ⟨by simp, by decide, by decide⟩
 
+/-- **first read**: `what = 0` returns, per date published by `T`, the first published value - the fold of the
+    publications sharing the date's first stamp (a same-stamp version merged later overrides, as for every
+    read; this is the only reading under which the clause is true of the code, see docs/notes/C17.md). -/
+theorem read_first (log : List Version) (h : Ordered log) (T : Option Int) :
+    ∃ st, history log = some st ∧ biRead st T 0 = specFirst log T := by
+  obtain ⟨st, hst, hg, he, _⟩ := history_inv log h.ne h.wf h.stamps
+  refine ⟨st, hst, ?_⟩
+  rw [biRead_first st hg, specFirst_eq]
+  exact firstRows_congr he (fun d => (hg d).1.le)
+    (fun d => (logRows_sorted log h.stamps).sublist List.filter_sublist) T
+
 /-- the dates an as-of read returns are exactly the dates with a publication stamped `≤ T`:
     no row for dates first published after `T` -/
 theorem read_dates (log : List Version) (h : Ordered log) (T : Int) (st : Store) (hst : history log = some st)
